@@ -1,9 +1,91 @@
-import LSProofs.Wf
-/-! # C05 — placeholder while the refinement development is being written (see DESIGN 4.4) -/
+import LSProofs.TextSpec
+import LSProofs.Props.C03
+/-!
+# C05 — allocation failure is reported, not half-applied
+
+Every theorem of the development is universally quantified over the allocator oracle
+`rf : request index → byte size → refused?`, i.e. over every fault sequence (each request in turn,
+pairs, any subset, any byte limit). What a refusal does:
+* the `try_` form returns `Err` and the plain form panics with that error (`failOut plain`);
+* `SameAs w w' h`: the target is bit-identical, reads the same text, and **no block changed**
+  (`heap.slots` equal: same counts, same capacities, same bytes, nothing freed, nothing leaked);
+* the world is still `Wf` (C03), so counts agree with handles and everything is released normally
+  by the rest of the history; every other handle is untouched (C02).
+-/
 namespace LS.C05
 open LS
 
-theorem init_wf (st : List Bytes) (hst : ∀ t ∈ st, Valid t ∧ t.length ≤ STATIC_MAX_LEN) :
-    Wf { statics := st } := wf_init st hst
+theorem failure_form (plain : Bool) : failOut plain = (if plain then Out.panicAlloc else Out.err) := rfl
+
+/-- a refused allocation leaves every block as it was -/
+theorem refused_alloc_heap (rf : Refuse) (hp : Heap) (cap : Nat) (init : Bytes)
+    (h : rf hp.reqs (HEADER + cap) = true) :
+    (hp.allocate rf cap init).1 = none ∧ (hp.allocate rf cap init).2.slots = hp.slots ∧
+    (hp.allocate rf cap init).2.reqs = hp.reqs + 1 := by
+  simp [Heap.allocate, h]
+
+/-- the mutators: whenever the outcome is the failure outcome, nothing was applied -/
+theorem push_str_atomic (rf : Refuse) (w : World) (h : Nat) (t s : Bytes) (plain : Bool) (hw : Wf w)
+    (ht : w.text h = some t) (hs : Valid s) :
+    (step rf w (.pushStr h s plain)).2 = .ok .unit ∨
+    ((step rf w (.pushStr h s plain)).2 = failOut plain ∧ SameAs w (step rf w (.pushStr h s plain)).1 h) := by
+  rcases pushStr_refines (rf := rf) hw ht s hs plain with ⟨a, _⟩ | b
+  · exact Or.inl a
+  · exact Or.inr b
+
+theorem reserve_atomic (rf : Refuse) (w : World) (h : Nat) (t : Bytes) (n : Nat) (plain : Bool) (hw : Wf w)
+    (ht : w.text h = some t) :
+    (step rf w (.reserve h n plain)).2 = .ok .unit ∨
+    ((step rf w (.reserve h n plain)).2 = failOut plain ∧ SameAs w (step rf w (.reserve h n plain)).1 h) := by
+  rcases reserve_refines (rf := rf) hw ht n plain with ⟨a, _⟩ | b
+  · exact Or.inl a
+  · exact Or.inr b
+
+theorem shrink_to_atomic (rf : Refuse) (w : World) (h : Nat) (t : Bytes) (m : Nat) (plain : Bool) (hw : Wf w)
+    (ht : w.text h = some t) :
+    (step rf w (.shrinkTo h m plain)).2 = .ok .unit ∨
+    ((step rf w (.shrinkTo h m plain)).2 = failOut plain ∧ SameAs w (step rf w (.shrinkTo h m plain)).1 h) := by
+  rcases shrinkTo_refines (rf := rf) hw ht m plain with ⟨a, _⟩ | b
+  · exact Or.inl a
+  · exact Or.inr b
+
+theorem retain_atomic (rf : Refuse) (w : World) (h : Nat) (t : Bytes) (answers : List (Option Bool)) (plain : Bool)
+    (hw : Wf w) (ht : w.text h = some t) :
+    (step rf w (.retain h answers plain)).2 ≠ failOut plain ∨ 
+    SameAs w (step rf w (.retain h answers plain)).1 h ∨ (step rf w (.retain h answers plain)).2 = .panicCb ∨
+    (step rf w (.retain h answers plain)).2 = .ok .unit := by
+  rcases retain_refines (rf := rf) hw ht answers plain with ⟨a, _⟩ | ⟨_, b⟩
+  · by_cases hp : (retainScan t.length t answers []).2 = true
+    · rw [hp] at a; exact Or.inr (Or.inr (Or.inl a))
+    · have : (retainScan t.length t answers []).2 = false := by simpa using hp
+      rw [this] at a; exact Or.inr (Or.inr (Or.inr a))
+  · exact Or.inr (Or.inl b)
+
+/-- after *any* step — failed or not, any fault pattern — the world is well-formed and every
+other handle is untouched; so the strings remain fully usable and are released normally -/
+theorem after_failure_usable (rf : Refuse) (w : World) (hw : Wf w) (op : Op) (hv : op.ArgsValid) :
+    Wf (step rf w op).1 ∧ (∀ u, (step rf w op).2 ≠ .ub u) ∧
+    ∀ h', h' ≠ op.target → (step rf w op).1.text h' = w.text h' :=
+  let p := step_post rf hw op hv
+  ⟨p.1, p.2.1, fun h' hne => (p.2.2 h' hne).2⟩
+
+theorem finishTemp_not_ok (w : World) (d : Nat) (res : Res Unit) (hd : w.get d = none)
+    (h : (finishTemp w d res).2 ≠ .ok .unit) : (finishTemp w d res).1.get d = none := by
+  cases res with
+  | ok v hp r => simp [finishTemp] at h
+  | err hp r => simp only [finishTemp]; cases releaseRepr hp r <;> simp [World.get_put_self, hd]
+  | pcb hp r => simp only [finishTemp]; cases releaseRepr hp r <;> simp [World.get_put_self, hd]
+  | pidx hp r => simp only [finishTemp]; cases releaseRepr hp r <;> simp [World.get_put_self, hd]
+  | ub u => simpa [finishTemp] using hd
+
+/-- a temporary that fails midway (`collect`, `to_lean_string`) is released: the destination slot
+stays empty and — by `Wf` and `C03.live_iff_owned` — its block is gone -/
+theorem failed_collect_leaves_nothing (rf : Refuse) (w : World) (hw : Wf w) (d hint : Nat) (items : List (Option Bytes))
+    (hv : ∀ s, some s ∈ items → Valid s) (hd : w.get d = none)
+    (hfail : (step rf w (.collectChars d hint items)).2 ≠ .ok .unit) :
+    (step rf w (.collectChars d hint items)).1.get d = none ∧ Wf (step rf w (.collectChars d hint items)).1 := by
+  refine ⟨?_, (step_post rf hw (.collectChars d hint items) hv).1⟩
+  simp only [step, hd, Option.isSome_none, Bool.false_eq_true, if_false] at hfail ⊢
+  exact finishTemp_not_ok _ _ _ hd hfail
 
 end LS.C05
